@@ -116,6 +116,8 @@ def replica_names(draw, ens, nmin=1, nmax=3, allow_bare=True):
     out = [ens + '|' + s for s in suf]
     if k > 1 and allow_bare and draw(st.integers(0, 7)) == 0:
         out[0] = ens   # accepted by the constructor: a replica carrying the bare ensemble name
+    if draw(st.integers(0, 9)) == 0:
+        out[-1] = ens + '|' + ens + out[-1].split('|')[-1]     # the ensemble name occurs again inside the replica label
     return out
 
 
@@ -162,6 +164,20 @@ def single_ensemble_chains(draw, ens, nmin=5, nmax=40, rep_max=3, kinds=('contig
         il = draw(idl_list(nmin, nmax, kinds=kinds, gap=g))
         chains.append({'name': r, 'idl': il, 'form': draw(idl_form()),
                        'data': draw(recipe(len(il), kinds=data_kinds, mean=mean, sigma=sigma))})
+    if len(chains) > 1 and draw(st.integers(0, 4)) == 0:
+        # sibling replicas: same first configuration, same last configuration and same length, holes in other places
+        base = chains[0]['idl']
+        incs = [b - a for a, b in zip(base, base[1:])]
+        if len(set(incs)) > 1:
+            perm = draw(st.permutations(incs))
+            il = [base[0]]
+            for i in perm:
+                il.append(il[-1] + i)
+            chains[1]['idl'] = il
+            d = chains[1]['data']
+            if d['kind'] == 'list':
+                d = {'kind': 'white', 'seed': len(il), 'mean': d['x'][0], 'sigma': 0.5}
+            chains[1]['data'] = d
     return chains
 
 
